@@ -155,6 +155,10 @@ def judge_main(ck, results):
         d = compare(h, r["events"])
         if d:
             why = (why + "; " if why else "") + d[1]
+            fe, fo = _norm(h[-1])["fs"], _norm(r["events"][-1])["fs"]
+            if fe != fo:
+                why += "; directory after the run (path: expected, observed): %s" % {
+                    p: (fe.get(p), fo.get(p)) for p in sorted(set(fe) | set(fo)) if fe.get(p) != fo.get(p)}
         if why:
             rn = cs["runs"][0]
             ck.violation({"kind": "S->I", "case": cs, "expected": h, "observed": r["events"], "info": r["info"]},
@@ -356,13 +360,14 @@ def history(ck, wd, persist, fresh, sd, limit):
 # ------------------------------------------------------------------ entry points
 
 DEVS = [("Out_dev_plainopen.cfg", "NoEarlyEffect", "output opened with open() instead of the deferred writer: truncated when a later step fails"),
-        ("Out_dev_plainopen_succ.cfg", "SuccessState", "output opened with open(): no backup of the previous file"),
-        ("Out_dev_plainopen_commit.cfg", "CommitOnly", "output opened with open(): the directory changes outside the commit stage"),
         ("Out_dev_flushearly.cfg", "NoEarlyEffect", "writer flushed before serialisation is complete"),
         ("Out_dev_bkoverwrite.cfg", "OthersKept", "backup always written to #name.1#: an existing backup is overwritten"),
         ("Out_dev_nobackup.cfg", "NoLoss", "temp file moved over the existing file: previous content lost"),
-        ("Out_dev_nobackup_succ.cfg", "SuccessState", "temp file moved over the existing file: no backup after success"),
         ("Out_dev_seqopen.cfg", "NoEarlyEffect", "gen_seq opens (truncates) the output before the graph exists (mutant m40)")]
+# the same flags against further properties (thorough tier)
+DEVS_MORE = [("Out_dev_plainopen_succ.cfg", "SuccessState", "output opened with open(): no backup of the previous file"),
+             ("Out_dev_plainopen_commit.cfg", "CommitOnly", "output opened with open(): the directory changes outside the commit stage"),
+             ("Out_dev_nobackup_succ.cfg", "SuccessState", "temp file moved over the existing file: no backup after success")]
 
 
 def run(tier):
@@ -390,7 +395,8 @@ def run(tier):
             ("Output_MC", "Out_hist_same.cfg", {"workers": 1}),
             ("Output_Export", "Out_hist_export_persist.cfg", {"workers": 1}),
             ("Output_Export", "Out_hist_export_fresh.cfg", {"workers": 1})]
-    jobs += [("Output_MC", cfg, {"workers": 1, "check": False}) for cfg, _, _ in DEVS]
+    devs = DEVS + (DEVS_MORE if tier == "thorough" else [])
+    jobs += [("Output_MC", cfg, {"workers": 1, "check": False}) for cfg, _, _ in devs]
     res = c.tlc_many(jobs)
     small, export, hpers, hfresh, hsame, xpers, xfresh = res[:7]
     ck.model_must_hold(small, "NoEarlyEffect/SuccessState/OthersKept/OnlyBackupCreated/NoLoss/TargetWhole/TmpClean/CommitOnly")
@@ -398,7 +404,7 @@ def run(tier):
     for act in ("Work", "OpenDeferred", "PlainOpen", "WriteBegin", "WriteEnd", "FlushBegin", "FlushFind", "FlushBackup", "FlushMove", "AnyCrash", "Finish"):
         if not cov.get(act):
             raise c.MachineryError("action %s never taken in Out_small (vacuous)" % act)
-    for (cfg, inv, what), r in zip(DEVS, res[7:]):
+    for (cfg, inv, what), r in zip(devs, res[7:]):
         ck.model_must_refute(r, inv, what)
     ck.model_must_hold(export, "export")
     ck.model_must_hold(hfresh, "history, second run in a fresh process: HistoryClean")
@@ -452,7 +458,8 @@ def run(tier):
     ck.extra["trace_runs"] = stats
     if stats["success"] == 0 or stats["injected"] == 0 or stats["self_failed"] == 0:
         raise c.MachineryError("trace direction is missing a class of runs: %s" % stats)
-    tr = [t for t in doc["traces"] if t["events"][-1]["ev"]["kind"] == "finish" and t["events"][0]["fs"]["out"] == "old"]
+    tr = [t for t in doc["traces"] if t["events"][-1]["ev"]["kind"] == "finish" and t["events"][0]["fs"]["out"] == "old"
+          and t["events"][0]["var"]["prog"] != "gen_seq"]
     if tr:
         ck.sample({"I->S trace": [_label(e["ev"]) for e in tr[0]["events"]], "program": tr[0]["events"][0]["var"],
                    "initial directory": {k: v for k, v in tr[0]["events"][0]["fs"].items() if v != "absent"},
@@ -477,10 +484,26 @@ def run(tier):
     return ck.finish()
 
 
+class _ReplayCk:
+    """stands in for common.Check while one stored case is re-executed: nothing is written to evidence/ (the stored replay
+    files of the last run stay in place), differences are printed"""
+
+    def __init__(self):
+        self.violations = self.replayed = self.evaluations = self.traces = 0
+        self.nontrivial, self.extra = set(), {}
+
+    def violation(self, case, sig=None, what=""):
+        self.violations += 1
+        print("replay: " + what[:1500])
+
+    def add_tlc(self, res):
+        return res
+
+
 def replay(path):
     doc = json.loads(open(path).read())
     case = doc["case"]
-    ck = c.Check(PROP, "quick")
+    ck = _ReplayCk()
     wd = c.workdir(PROP, "replay")
     if case["kind"] == "S->I":
         cs = case["case"]
